@@ -209,6 +209,11 @@ func verifyFunc(l *Loaded, spec *FuncSpec, prop string) (res *FuncResult) {
 			if !en.appliesTo(prop) {
 				continue
 			}
+			if en.Kind == "defines" {
+				// definitional clause: names the (deterministic) result with a spec function; nothing to prove
+				e.note("definitional contract clause (assumed at call sites): " + sp.Name + " " + en.Src)
+				continue
+			}
 			g := x.evalClause(c, en)
 			x.emit(s2, "ensures", x.oblName(en.Name), en.Line, g)
 		}
@@ -248,7 +253,7 @@ func (x *Exec) initGhost(st *State) {
 // ---------------------------------------------------------------------------
 // SMT script assembly.
 
-func (e *Engine) script(o *Obligation) string {
+func (e *Engine) script(o *Obligation, dropQuant bool) string {
 	var sb strings.Builder
 	sb.WriteString("(set-option :produce-models true)\n(set-logic ALL)\n")
 	sb.WriteString(keyDatatype())
@@ -260,7 +265,7 @@ func (e *Engine) script(o *Obligation) string {
 		sb.WriteString(d)
 		sb.WriteByte('\n')
 	}
-	cover := o.Expect == "sat"
+	cover := o.Expect == "sat" || dropQuant
 	var body strings.Builder
 	for _, h := range o.Hyps {
 		if cover && (strings.Contains(h.S, "(forall ") || strings.Contains(h.S, "(exists ")) {
@@ -421,13 +426,41 @@ func discharge(results []*FuncResult, timeoutS int) []*OblReport {
 				o.Result = &SolveResult{Status: "unsat", Solver: "syntactic"}
 				continue
 			}
-			script := r.e.script(o)
+			script := r.e.script(o, false)
 			o.Script = script
 			rep.Bytes = len(script)
+			hasQuant := strings.Contains(script, "(forall ") || strings.Contains(script, "(exists ")
+			var qf string
+			if hasQuant && o.Expect == "unsat" {
+				qf = r.e.script(o, true)
+			}
 			wg.Add(1)
 			go func() {
 				defer wg.Done()
-				sr := Solve(o.Name, script, timeoutS, o.Expect == "unsat")
+				var sr SolveResult
+				if qf != "" {
+					// first the quantifier-free weakening (fewer hypotheses): unsat there is a proof; sat gives a
+					// candidate counter-model (it ignores the quantified axioms, so it must replay to count)
+					q := Solve(o.Name+".qf", qf, 10, true)
+					if q.Status == "unsat" {
+						q.Solver += "/qf"
+						sr = q
+					} else {
+						t := timeoutS
+						if q.Status == "sat" && t > 8 {
+							t = 8
+						}
+						sr = Solve(o.Name, script, t, true)
+						if sr.Status != "unsat" && sr.Status != "sat" && q.Status == "sat" {
+							sr.Model = q.Model
+							sr.Raw = "full query: " + sr.Status + "; quantifier-free weakening is satisfiable (candidate model below)\n" + q.Model
+							sr.Status = "candidate"
+							sr.Solver = q.Solver + "/qf"
+						}
+					}
+				} else {
+					sr = Solve(o.Name, script, timeoutS, o.Expect == "unsat")
+				}
 				o.Result = &sr
 				rep.Solver = sr.Solver
 				rep.Secs = sr.Secs
@@ -442,6 +475,8 @@ func discharge(results []*FuncResult, timeoutS int) []*OblReport {
 					rep.Status = "cover-undecided"
 				case sr.Status == "sat":
 					rep.Status = "refuted"
+				case sr.Status == "candidate":
+					rep.Status = "undecided:candidate-model"
 				default:
 					rep.Status = "undecided:" + sr.Status
 				}
